@@ -30,6 +30,13 @@ Section ExecArgs.
     exists mac a1, assoc (txt t) ms = Some mac /\ m_args mac = [AMand] /\
                    m_repl mac = RToks [a1] /\ is_arg a1 = Some 1%nat /\ m_extract mac = [].
 
+  (* a declared macro without arguments whose body is plain text *)
+  Definition constm (ms : list (str * macro)) (t : tok) (body : list tok) : Prop :=
+    tk t = KMacro /\ txt_is t (s2l "\def") = false /\
+    exists mac, assoc (txt t) ms = Some mac /\ m_args mac = [] /\
+                m_repl mac = RToks body /\ m_extract mac = [] /\
+                Forall (gtok T) body.
+
   (* balanced with respect to braces *)
   Inductive bal : list tok -> Prop :=
     | bal_nil : bal []
@@ -43,7 +50,8 @@ Section ExecArgs.
     | b_pass m o a c l : passm ms m -> lb o -> rb c ->
                          arg_collect (a ++ c :: l) s_rbrace 1 [] = Some (a, l) ->
                          bcl ms a -> bcl ms l ->
-                         bcl ms (m :: o :: a ++ c :: l).
+                         bcl ms (m :: o :: a ++ c :: l)
+    | b_const m body l : constm ms m body -> bcl ms l -> bcl ms (m :: l).
 
   Lemma lb_txt o : lb o -> txt_is o s_lbrace = true /\ txt_is o s_rbrace = false.
   Proof. intros [_ E]. unfold txt_is. rewrite E. split; reflexivity. Qed.
@@ -125,6 +133,40 @@ Section ExecArgs.
     rewrite <- app_assoc. reflexivity.
   Qed.
 
+  (* one turn of the loop at a macro without arguments and with a body of
+     plain text: the body, every token pinned to the call *)
+  Lemma gtok_not_arg t : gtok T t -> is_arg t = None.
+  Proof.
+    intros [_ Hk]. cbn [tk txt pos pfix mk] in Hk. unfold is_arg.
+    destruct (tk t); try contradiction; reflexivity.
+  Qed.
+  Lemma gen_body args : forall body cur,
+    Forall (gtok T) body ->
+    prep_pos args body cur = Ok cur /\
+    gen_repl args body cur = Ok (map (fun b => set_pos_fix b cur) body).
+  Proof.
+    induction body as [|t body IH]; intros cur Hb; [split; reflexivity|].
+    inversion Hb as [|? ? Ht Hr]; subst. destruct (IH cur Hr) as [I1 I2].
+    cbn [prep_pos gen_repl map]. rewrite (gtok_not_arg t Ht), I1, I2. split; reflexivity.
+  Qed.
+
+  Lemma step_const rec fuel st m body l env_stop rout :
+    constm (macros st) m body ->
+    step_seq T rd rec fuel st (m :: l) env_stop rout =
+    rec (TSeq (ActionT (pos m) :: map (fun b => set_pos_fix b (pos m)) body ++ skip_ctl l)
+              env_stop rout) st.
+  Proof.
+    intros (Hk & Hd & mac & Hm & Ha & Hr & He & Hb).
+    unfold step_seq. rewrite Hk, Hd. unfold expand_macro. rewrite Hm.
+    unfold expand_arguments. rewrite Ha. cbn [collect_args]. rewrite He. cbn [rbind].
+    rewrite Hr. unfold generate_replacements.
+    destruct (gen_body [] body (pos m) Hb) as [G1 G2]. rewrite G1. cbn [rbind].
+    rewrite G2. cbn [rbind]. reflexivity.
+  Qed.
+
+  Lemma gtok_pinned t p : gtok T t -> gtok T (set_pos_fix t p).
+  Proof. intros H. exact H. Qed.
+
   (* names of the undeclared control words, in order *)
   Definition unames (ms : list (str * macro)) (toks : list tok) : list str :=
     flat_map (fun t => match tk t with
@@ -136,15 +178,23 @@ Section ExecArgs.
 
   (* what the document is expected to show: a special sequence by its
      tabulated text at the position of the sequence, everything else as it is *)
-  Definition rend (t : tok) : list tok :=
+  Definition rend (ms : list (str * macro)) (t : tok) : list tok :=
     match tk t with
     | KSpecial => match assoc (txt t) (t_special_values T) with
                   | Some v => if inert_txt t then [mk KText (pos t) v (pfix t)] else [t]
                   | None => [t] end
+    | KMacro => match assoc (txt t) ms with
+                | Some mac =>
+                    match m_args mac, m_repl mac with
+                    | [], RToks body => map (fun b => set_pos_fix b (pos t)) body
+                    | _, _ => [t]
+                    end
+                | None => [t] end
     | _ => [t]
     end.
-  Definition rtoks (l : list tok) : list tok := flat_map rend l.
-  Lemma rtoks_app a b : rtoks (a ++ b) = rtoks a ++ rtoks b.
+  Definition rtoks (ms : list (str * macro)) (l : list tok) : list tok :=
+    flat_map (rend ms) l.
+  Lemma rtoks_app ms a b : rtoks ms (a ++ b) = rtoks ms a ++ rtoks ms b.
   Proof. apply flat_map_app. Qed.
   (* the text a special sequence is replaced by *)
   Definition sp_tok (t : tok) : Prop :=
@@ -176,20 +226,22 @@ Section ExecArgs.
 
   Lemma bcl_app ms a b : bcl ms a -> bcl ms b -> bcl ms (a ++ b).
   Proof.
-    induction 1 as [|t l Ht Hl IH|m o a0 c l Hm Ho Hc Hb Ha IHa Hl IHl]; intros Hb'.
+    induction 1 as [|t l Ht Hl IH|m o a0 c l Hm Ho Hc Hb Ha IHa Hl IHl|m body l Hm Hl IH];
+      intros Hb'.
     - exact Hb'.
     - cbn [app]. constructor; [exact Ht | apply IH; exact Hb'].
     - cbn [app]. rewrite <- app_assoc. cbn [app].
       apply b_pass; try assumption; [|apply IHl; exact Hb'].
       pose proof (arg_collect_more _ _ _ _ _ _ b Hb) as Hm'.
       rewrite <- app_assoc in Hm'. exact Hm'.
+    - cbn [app]. eapply b_const; [exact Hm | apply IH; exact Hb'].
   Qed.
 
   Lemma skip_space_bcl ms l : bcl ms l ->
     exists pre, l = pre ++ skip_ctl l /\ Forall (ucls ms) pre /\
                 Forall (fun t => buf_is_space t = true) pre /\ bcl ms (skip_ctl l).
   Proof.
-    induction 1 as [|t l Ht Hl IH|m o a c l Hm Ho Hc Hb Ha _ Hl _].
+    induction 1 as [|t l Ht Hl IH|m o a c l Hm Ho Hc Hb Ha _ Hl _|m body l Hm Hl _].
     - exists []. repeat split; constructor.
     - cbn [skip_ctl]. destruct (buf_is_space t && negb (is_lang t)) eqn:E.
       + apply andb_true_iff in E. destruct E as [E _].
@@ -202,6 +254,10 @@ Section ExecArgs.
       { destruct Hm as (Hk & _). unfold buf_is_space. rewrite Hk. reflexivity. }
       cbn [skip_ctl]. rewrite E. cbn [andb]. exists []. split; [reflexivity|].
       split; [constructor|]. split; [constructor|]. apply b_pass; assumption.
+    - assert (E : buf_is_space m = false).
+      { destruct Hm as (Hk & _). unfold buf_is_space. rewrite Hk. reflexivity. }
+      cbn [skip_ctl]. rewrite E. cbn [andb]. exists []. split; [reflexivity|].
+      split; [constructor|]. split; [constructor|]. eapply b_const; eassumption.
   Qed.
 
   Lemma unames_ucls_unknown ms t :
@@ -217,12 +273,12 @@ Section ExecArgs.
       remove_pure_action_lines isp (rev rout ++ ts) = Ok out /\
       unknowns st' = fold_left add_unknown (unames (macros st) toks) (unknowns st) /\
       macros st' = macros st /\
-      nst (plains ts) = nst (plains (rtoks toks)) /\
-      texts ts = texts (rtoks toks) /\
-      Forall (fun t => etok T t \/ (pk t = false /\ txt t = []) \/ sp_tok t) ts.
+      nst (plains ts) = nst (plains (rtoks (macros st) toks)) /\
+      texts ts = texts (rtoks (macros st) toks) /\
+      Forall (fun t => etok T t \/ (pk t = false /\ txt t = []) \/ sp_tok t \/ (pfix t = true /\ gtok T t)) ts.
   Proof.
     induction fuel as [|k IH]; intros toks rout st r Hc H; [discriminate|].
-    cbn [exec step] in H. inversion Hc as [E0|t b Ht Hb E0|m o a c l Hm Ho Hcl Hbal Ha Hl E0]; subst.
+    cbn [exec step] in H. inversion Hc as [E0|t b Ht Hb E0|m o a c l Hm Ho Hcl Hbal Ha Hl E0|m body l Hm Hl E0]; subst.
     - cbn [step_seq] in H.
       destruct (remove_pure_action_lines isp (rev rout)) as [o| | |] eqn:Er; try discriminate.
       cbn [rbind] in H. inversion H; subst. exists st, [], o.
@@ -230,49 +286,50 @@ Section ExecArgs.
     - (* bookkeeping shared by the one-token cases: the token contributes
          un to the names, shown to the expected tokens, pushes `push` *)
       assert (Hone : forall push un st1,
-                rtoks [t] = rtoks [t] ->
+                rtoks (macros st) [t] = rtoks (macros st) [t] ->
                 (exists st' ts out,
                    (st', ASeq out []) = r /\
                    remove_pure_action_lines isp (rev rout ++ push ++ ts) = Ok out /\
                    unknowns st' = fold_left add_unknown (unames (macros st) b) (unknowns st1) /\
                    macros st' = macros st /\
-                   nst (plains ts) = nst (plains (rtoks b)) /\
-                   texts ts = texts (rtoks b) /\
-                   Forall (fun t => etok T t \/ (pk t = false /\ txt t = []) \/ sp_tok t) ts) ->
+                   nst (plains ts) = nst (plains (rtoks (macros st) b)) /\
+                   texts ts = texts (rtoks (macros st) b) /\
+                   Forall (fun t => etok T t \/ (pk t = false /\ txt t = []) \/ sp_tok t \/ (pfix t = true /\ gtok T t)) ts) ->
                 unknowns st1 = fold_left add_unknown un (unknowns st) ->
                 unames (macros st) [t] = un ->
-                plains push = plains (rtoks [t]) -> texts push = texts (rtoks [t]) ->
-                Forall (fun t => etok T t \/ (pk t = false /\ txt t = []) \/ sp_tok t) push ->
+                plains push = plains (rtoks (macros st) [t]) -> texts push = texts (rtoks (macros st) [t]) ->
+                Forall (fun t => etok T t \/ (pk t = false /\ txt t = []) \/ sp_tok t \/ (pfix t = true /\ gtok T t)) push ->
                 exists st' ts out,
                   r = (st', ASeq out []) /\
                   remove_pure_action_lines isp (rev rout ++ ts) = Ok out /\
                   unknowns st' = fold_left add_unknown (unames (macros st) (t :: b)) (unknowns st) /\
                   macros st' = macros st /\
-                  nst (plains ts) = nst (plains (rtoks (t :: b))) /\
-                  texts ts = texts (rtoks (t :: b)) /\
-                  Forall (fun t => etok T t \/ (pk t = false /\ txt t = []) \/ sp_tok t) ts).
+                  nst (plains ts) = nst (plains (rtoks (macros st) (t :: b))) /\
+                  texts ts = texts (rtoks (macros st) (t :: b)) /\
+                  Forall (fun t => etok T t \/ (pk t = false /\ txt t = []) \/ sp_tok t \/ (pfix t = true /\ gtok T t)) ts).
       { intros push un st1 _ (st' & ts & out & Er & Ep & Eu & Em & En & Et & Ef) U1 U2 P1 P2 Fp.
         exists st', (push ++ ts), out. split; [symmetry; exact Er|]. split; [exact Ep|].
         change (t :: b) with ([t] ++ b). rewrite unames_app, rtoks_app, U2, fold_left_app, <- U1.
         split; [exact Eu|]. split; [exact Em|].
         rewrite !plains_app, !texts_app, !nst_app, P1, P2, En, Et.
         split; [reflexivity|]. split; [reflexivity|]. apply Forall_app. split; assumption. }
-      assert (Rother : tk t <> KSpecial -> rtoks [t] = [t]).
-      { intros Hn. unfold rtoks, rend. cbn [flat_map]. rewrite app_nil_r.
-        destruct (tk t); try reflexivity. contradiction. }
-      inversion Ht as [? He|? Hk Hd Hm|? Hk Hi|? Hk Htx|? Hk Hbr|? v Hk Hi Hv]; subst.
+      assert (Rother : tk t <> KSpecial -> tk t <> KMacro -> rtoks (macros st) [t] = [t]).
+      { intros Hn Hn2. unfold rtoks, rend. cbn [flat_map]. rewrite app_nil_r.
+        destruct (tk t); try reflexivity; contradiction. }
+      inversion Ht as [? He|? Hk Hd Hm|? Hk Hi|? Hk Htx|? Hk Hbr|? v Hk Hi Hv|? Hpin Hg]; subst.
       + (* plain token *)
         rewrite (step_seq_etok T rd Htab) in H by exact He.
         destruct (IH _ _ _ _ Hb H) as (st' & ts & out & Er & Ep & Eu & Em & En & Et & Ef).
-        assert (Hns : tk t <> KSpecial) by (destruct He as [_ Hkind]; destruct (tk t); try contradiction; discriminate).
+        assert (Hns : tk t <> KSpecial /\ tk t <> KMacro)
+          by (destruct He as [_ Hkind]; destruct (tk t); try contradiction; split; discriminate).
         apply (Hone [t] [] st eq_refl).
         * exists st', ts, out. repeat split; try assumption; [symmetry; exact Er|].
           cbn [rev] in Ep. rewrite <- app_assoc in Ep. exact Ep.
         * reflexivity.
         * unfold unames. cbn [flat_map]. destruct He as [_ Hkind].
           destruct (tk t); try contradiction; reflexivity.
-        * rewrite (Rother Hns). reflexivity.
-        * rewrite (Rother Hns). reflexivity.
+        * rewrite (Rother (proj1 Hns) (proj2 Hns)). reflexivity.
+        * rewrite (Rother (proj1 Hns) (proj2 Hns)). reflexivity.
         * constructor; [left; exact He | constructor].
       + (* undeclared control word *)
         destruct (step_macro T rd (exec T rd k) k st t b None rout Hk Hd Hm)
@@ -282,12 +339,13 @@ Section ExecArgs.
         assert (Hcl2 : bcl (macros st1) (ActionT (pos t) :: skip_ctl b)).
         { rewrite Em1. constructor; [apply u_action; [left|]; reflexivity | exact Hrest]. }
         destruct (IH _ _ _ _ Hcl2 H) as (st' & ts & out & Er & Ep & Eu & Em & En & Et & Ef).
+        rewrite Em1 in En, Et.
         destruct (skipped_harmless T Hsp _ _ Hpre' Hpre) as [Hn0 Hp0].
         assert (Hun0 : unames (macros st) pre = []).
         { clear - Hpre. induction Hpre as [|x p Hx Hp IHp]; [reflexivity|].
           unfold unames in *. cbn [flat_map]. rewrite IHp, app_nil_r.
           unfold buf_is_space in Hx. destruct (tk x); try discriminate; reflexivity. }
-        assert (Hr0 : rtoks pre = pre).
+        assert (Hr0 : rtoks (macros st) pre = pre).
         { clear - Hpre. induction Hpre as [|x p Hx Hp IHp]; [reflexivity|].
           unfold rtoks in *. cbn [flat_map]. rewrite IHp. unfold rend, buf_is_space in *.
           destruct (tk x); try discriminate; reflexivity. }
@@ -295,7 +353,8 @@ Section ExecArgs.
         { clear - Hpre. induction Hpre as [|x p Hx Hp IHp]; [reflexivity|].
           unfold texts in *. cbn [filter]. rewrite IHp.
           unfold buf_is_space in Hx. unfold tx. destruct (tk x); try discriminate; reflexivity. }
-        assert (Hns : tk t <> KSpecial) by (rewrite Hk; discriminate).
+        assert (Runk : rtoks (macros st) [t] = [t]).
+        { unfold rtoks, rend. cbn [flat_map]. rewrite Hk, Hm. reflexivity. }
         exists st', ts, out. split; [exact Er|]. split; [exact Ep|].
         split; [|split; [congruence|split; [|split; [|exact Ef]]]].
         * rewrite Eu, Em1. change (ActionT (pos t) :: skip_ctl b)
@@ -305,34 +364,35 @@ Section ExecArgs.
           rewrite Eu1. f_equal. rewrite Eb at 2. rewrite unames_app, Hun0. reflexivity.
         * rewrite En.
           change (ActionT (pos t) :: skip_ctl b) with ([ActionT (pos t)] ++ skip_ctl b).
-          change (t :: b) with ([t] ++ b). rewrite !rtoks_app, (Rother Hns).
+          change (t :: b) with ([t] ++ b). rewrite !rtoks_app, Runk.
           rewrite Eb at 2. rewrite rtoks_app, Hr0, !plains_app, !nst_app.
           unfold ExecUnk.plains in Hp0 |- *. rewrite Hp0.
-          assert (P1 : filter pk (rtoks [ActionT (pos t)]) = []) by reflexivity.
+          assert (P1 : filter pk (rtoks (macros st) [ActionT (pos t)]) = []) by reflexivity.
           assert (P2 : filter pk [t] = []) by (cbn [filter]; unfold ExecUnk.pk; rewrite Hk; reflexivity).
           rewrite P1, P2. reflexivity.
         * rewrite Et.
           change (ActionT (pos t) :: skip_ctl b) with ([ActionT (pos t)] ++ skip_ctl b).
-          change (t :: b) with ([t] ++ b). rewrite !rtoks_app, (Rother Hns).
+          change (t :: b) with ([t] ++ b). rewrite !rtoks_app, Runk.
           rewrite Eb at 2. rewrite rtoks_app, Hr0, !texts_app, Htx0.
-          assert (X1 : texts (rtoks [ActionT (pos t)]) = []) by reflexivity.
+          assert (X1 : texts (rtoks (macros st) [ActionT (pos t)]) = []) by reflexivity.
           assert (X2 : texts [t] = []) by (unfold texts, tx; cbn [filter]; rewrite Hk; reflexivity).
           rewrite X1, X2. reflexivity.
       + (* comment *)
         rewrite (step_comment T rd) in H by assumption.
         destruct (IH _ _ _ _ Hb H) as (st' & ts & out & Er & Ep & Eu & Em & En & Et & Ef).
-        assert (Hns : tk t <> KSpecial) by (rewrite Hk; discriminate).
+        assert (Hns : tk t <> KSpecial /\ tk t <> KMacro) by (rewrite Hk; split; discriminate).
         apply (Hone [] [] st eq_refl).
         * exists st', ts, out. repeat split; try assumption. symmetry; exact Er.
         * reflexivity.
         * unfold unames. cbn [flat_map]. rewrite Hk. reflexivity.
-        * rewrite (Rother Hns). unfold ExecUnk.plains, ExecUnk.pk. cbn [filter]. rewrite Hk. reflexivity.
-        * rewrite (Rother Hns). unfold texts, tx. cbn [filter]. rewrite Hk. reflexivity.
+        * rewrite (Rother (proj1 Hns) (proj2 Hns)). unfold ExecUnk.plains, ExecUnk.pk. cbn [filter]. rewrite Hk. reflexivity.
+        * rewrite (Rother (proj1 Hns) (proj2 Hns)). unfold texts, tx. cbn [filter]. rewrite Hk. reflexivity.
         * constructor.
       + (* action or void token *)
         rewrite (step_action T rd Htab) in H by assumption.
         destruct (IH _ _ _ _ Hb H) as (st' & ts & out & Er & Ep & Eu & Em & En & Et & Ef).
-        assert (Hns : tk t <> KSpecial) by (destruct Hk as [Hk|Hk]; rewrite Hk; discriminate).
+        assert (Hns : tk t <> KSpecial /\ tk t <> KMacro)
+          by (destruct Hk as [Hk|Hk]; rewrite Hk; split; discriminate).
         assert (P2 : pk t = false)
           by (unfold ExecUnk.pk; destruct Hk as [Hk|Hk]; rewrite Hk; reflexivity).
         apply (Hone [t] [] st eq_refl).
@@ -340,13 +400,13 @@ Section ExecArgs.
           cbn [rev] in Ep. rewrite <- app_assoc in Ep. exact Ep.
         * reflexivity.
         * unfold unames. cbn [flat_map]. destruct Hk as [Hk|Hk]; rewrite Hk; reflexivity.
-        * rewrite (Rother Hns). reflexivity.
-        * rewrite (Rother Hns). reflexivity.
+        * rewrite (Rother (proj1 Hns) (proj2 Hns)). reflexivity.
+        * rewrite (Rother (proj1 Hns) (proj2 Hns)). reflexivity.
         * constructor; [right; left; split; [exact P2 | exact Htx] | constructor].
       + (* single brace *)
         rewrite (step_brace T rd) in H by assumption.
         destruct (IH _ _ _ _ Hb H) as (st' & ts & out & Er & Ep & Eu & Em & En & Et & Ef).
-        assert (Rb : rtoks [t] = [t]).
+        assert (Rb : rtoks (macros st) [t] = [t]).
         { unfold rtoks, rend. cbn [flat_map]. rewrite Hk.
           assert (Hin : inert_txt t = false).
           { unfold inert_txt, loop_strings, txt_is. destruct Hbr as [E|E]; rewrite E; reflexivity. }
@@ -362,7 +422,7 @@ Section ExecArgs.
       + (* special sequence: replaced by its tabulated text at its position *)
         rewrite (step_special T rd _ _ _ _ _ _ _ v Hk Hi Hv) in H.
         destruct (IH _ _ _ _ Hb H) as (st' & ts & out & Er & Ep & Eu & Em & En & Et & Ef).
-        assert (Rs : rtoks [t] = [mk KText (pos t) v (pfix t)]).
+        assert (Rs : rtoks (macros st) [t] = [mk KText (pos t) v (pfix t)]).
         { unfold rtoks, rend. cbn [flat_map]. rewrite Hk, Hv, Hi. reflexivity. }
         apply (Hone [ActionT (pos t); mk KText (pos t) v (pfix t)] [] st eq_refl).
         * exists st', ts, out. repeat split; try assumption; [symmetry; exact Er|].
@@ -372,8 +432,23 @@ Section ExecArgs.
         * rewrite Rs. reflexivity.
         * rewrite Rs. reflexivity.
         * constructor; [right; left; split; reflexivity|].
-          constructor; [|constructor]. right. right. split; [reflexivity|].
+          constructor; [|constructor]. right. right. left. split; [reflexivity|].
           exists (txt t). exact Hv.
+      + (* generated text: pinned, otherwise like a plain token *)
+        rewrite (step_seq_gtok T rd Htab) in H by exact Hg.
+        destruct (IH _ _ _ _ Hb H) as (st' & ts & out & Er & Ep & Eu & Em & En & Et & Ef).
+        assert (Hns : tk t <> KSpecial /\ tk t <> KMacro).
+        { destruct Hg as [_ Hkind]. cbn [tk txt pos pfix mk] in Hkind.
+          destruct (tk t); try contradiction; split; discriminate. }
+        apply (Hone [t] [] st eq_refl).
+        * exists st', ts, out. repeat split; try assumption; [symmetry; exact Er|].
+          cbn [rev] in Ep. rewrite <- app_assoc in Ep. exact Ep.
+        * reflexivity.
+        * unfold unames. cbn [flat_map]. destruct Hg as [_ Hkind].
+          cbn [tk txt pos pfix mk] in Hkind. destruct (tk t); try contradiction; reflexivity.
+        * rewrite (Rother (proj1 Hns) (proj2 Hns)). reflexivity.
+        * rewrite (Rother (proj1 Hns) (proj2 Hns)). reflexivity.
+        * constructor; [right; right; right; split; assumption | constructor].
     - (* a pass-through macro with its braced argument *)
       destruct (step_pass (exec T rd k) k st m o a c l None rout Hm Ho Hcl Hbal)
         as (a' & x & y & Ea' & Hx & Hy & Es).
@@ -389,16 +464,16 @@ Section ExecArgs.
         constructor; [apply u_action; [left|]; reflexivity | exact Hl]. }
       destruct (IH _ _ _ _ Hnew H) as (st' & ts & out & Er & Ep & Eu & Em & En & Et & Ef).
       exists st', ts, out. split; [exact Er|]. split; [exact Ep|].
-      destruct Hm as (Hk & _ & mac & a1 & Hma & _).
+      destruct Hm as (Hk & _ & mac & a1 & Hma & Hargs & _).
       destruct (lb_txt o Ho) as [O1 _]. destruct (rb_txt c Hcl) as [_ C2].
       destruct Ho as [Ok_ Ot]. destruct Hcl as [Ck Ct].
       assert (Ua' : unames (macros st) a' = unames (macros st) a
-                    /\ plains (rtoks a') = plains (rtoks a)
-                    /\ texts (rtoks a') = texts (rtoks a)).
+                    /\ plains (rtoks (macros st) a') = plains (rtoks (macros st) a)
+                    /\ texts (rtoks (macros st) a') = texts (rtoks (macros st) a)).
       { rewrite Ea'. destruct a; repeat split; reflexivity. }
       destruct Ua' as (Ua' & Pa' & Ta').
-      assert (Ro : rtoks [m; o] = [m; o] /\ rtoks [c] = [c]).
-      { unfold rtoks, rend. cbn [flat_map]. rewrite Hk, Ok_, Ck.
+      assert (Ro : rtoks (macros st) [m; o] = [m; o] /\ rtoks (macros st) [c] = [c]).
+      { unfold rtoks, rend. cbn [flat_map]. rewrite Hk, Ok_, Ck, Hma, Hargs.
         assert (I1 : inert_txt o = false)
           by (unfold inert_txt, loop_strings; cbn [forallb]; rewrite O1; cbn;
               repeat rewrite Bool.andb_false_r; reflexivity).
@@ -427,8 +502,8 @@ Section ExecArgs.
           with ([ActionT (pos m); ActionT (pos x)] ++ a' ++ [ActionT (pos y)] ++ l).
         change (m :: o :: a ++ c :: l) with ([m; o] ++ a ++ [c] ++ l).
         rewrite !rtoks_app, !plains_app, Pa', Ro, Rc.
-        assert (Q1 : plains (rtoks [ActionT (pos m); ActionT (pos x)]) = []) by reflexivity.
-        assert (Q2 : plains (rtoks [ActionT (pos y)]) = []) by reflexivity.
+        assert (Q1 : plains (rtoks (macros st) [ActionT (pos m); ActionT (pos x)]) = []) by reflexivity.
+        assert (Q2 : plains (rtoks (macros st) [ActionT (pos y)]) = []) by reflexivity.
         assert (Q3 : plains [m; o] = []).
         { unfold ExecUnk.plains, ExecUnk.pk. cbn [filter]. rewrite Hk, Ok_. reflexivity. }
         assert (Q4 : plains [c] = []).
@@ -439,55 +514,126 @@ Section ExecArgs.
           with ([ActionT (pos m); ActionT (pos x)] ++ a' ++ [ActionT (pos y)] ++ l).
         change (m :: o :: a ++ c :: l) with ([m; o] ++ a ++ [c] ++ l).
         rewrite !rtoks_app, !texts_app, Ta', Ro, Rc.
-        assert (Q1 : texts (rtoks [ActionT (pos m); ActionT (pos x)]) = []) by reflexivity.
-        assert (Q2 : texts (rtoks [ActionT (pos y)]) = []) by reflexivity.
+        assert (Q1 : texts (rtoks (macros st) [ActionT (pos m); ActionT (pos x)]) = []) by reflexivity.
+        assert (Q2 : texts (rtoks (macros st) [ActionT (pos y)]) = []) by reflexivity.
         assert (Q3 : texts [m; o] = []).
         { unfold texts, tx. cbn [filter]. rewrite Hk, Ok_. reflexivity. }
         assert (Q4 : texts [c] = []).
         { unfold texts, tx. cbn [filter]. rewrite Ck. reflexivity. }
         rewrite Q1, Q2, Q3, Q4. reflexivity.
+    - (* a macro without arguments: its body, pinned to the call *)
+      rewrite (step_const (exec T rd k) k st m body l None rout Hm) in H.
+      destruct (skip_space_bcl _ _ Hl) as (pre & Eb & Hpre' & Hpre & Hrest).
+      set (g := map (fun b => set_pos_fix b (pos m)) body) in *.
+      destruct Hm as (Hk & Hd & mac & Hma & Hargs & Hrepl & Hext & Hbody).
+      assert (Hg : Forall (fun t => pfix t = true /\ gtok T t) g).
+      { unfold g. apply Forall_forall. intros t Ht. apply in_map_iff in Ht.
+        destruct Ht as (b0 & Eb0 & Hin). subst t. rewrite Forall_forall in Hbody.
+        split; [reflexivity | apply gtok_pinned; apply Hbody; exact Hin]. }
+      assert (Hgcl : bcl (macros st) g).
+      { clear - Hg. induction Hg as [|t g' [Hp Ht] Hg' IHg]; [constructor|].
+        apply b_one; [apply u_gen; assumption | exact IHg]. }
+      assert (Hnew : bcl (macros st) (ActionT (pos m) :: g ++ skip_ctl l)).
+      { constructor; [apply u_action; [left|]; reflexivity|]. apply bcl_app; assumption. }
+      destruct (IH _ _ _ _ Hnew H) as (st' & ts & out & Er & Ep & Eu & Em & En & Et & Ef).
+      exists st', ts, out. split; [exact Er|]. split; [exact Ep|].
+      destruct (skipped_harmless T Hsp _ _ Hpre' Hpre) as [Hn0 Hp0].
+      assert (Hun0 : unames (macros st) pre = []).
+      { clear - Hpre. induction Hpre as [|x p Hx Hp IHp]; [reflexivity|].
+        unfold unames in *. cbn [flat_map]. rewrite IHp, app_nil_r.
+        unfold buf_is_space in Hx. destruct (tk x); try discriminate; reflexivity. }
+      assert (Hr0 : rtoks (macros st) pre = pre).
+      { clear - Hpre. induction Hpre as [|x p Hx Hp IHp]; [reflexivity|].
+        unfold rtoks in *. cbn [flat_map]. rewrite IHp. unfold rend, buf_is_space in *.
+        destruct (tk x); try discriminate; reflexivity. }
+      assert (Htx0 : texts pre = []).
+      { clear - Hpre. induction Hpre as [|x p Hx Hp IHp]; [reflexivity|].
+        unfold texts in *. cbn [filter]. rewrite IHp.
+        unfold buf_is_space in Hx. unfold tx. destruct (tk x); try discriminate; reflexivity. }
+      assert (Rg : rtoks (macros st) g = g /\ unames (macros st) g = []).
+      { clear - Hg. induction Hg as [|t g' [Hp [_ Ht]] Hg' [I1 I2]]; [split; reflexivity|].
+        cbn [tk txt pos pfix mk] in Ht. unfold rtoks, unames in *. cbn [flat_map].
+        rewrite I1, I2. unfold rend. destruct (tk t); try contradiction; split; reflexivity. }
+      destruct Rg as [Rg Ug].
+      assert (Rm : rtoks (macros st) [m] = g /\ unames (macros st) [m] = []).
+      { unfold rtoks, rend, unames. cbn [flat_map]. rewrite Hk, Hma, Hargs, Hrepl.
+        rewrite !app_nil_r. split; reflexivity. }
+      destruct Rm as [Rm Um].
+      split; [|split; [exact Em|split; [|split; [|exact Ef]]]].
+      + rewrite Eu. f_equal.
+        change (ActionT (pos m) :: g ++ skip_ctl l) with ([ActionT (pos m)] ++ g ++ skip_ctl l).
+        change (m :: l) with ([m] ++ l). rewrite !unames_app, Ug, Um.
+        rewrite Eb at 2. rewrite unames_app, Hun0. reflexivity.
+      + rewrite En.
+        change (ActionT (pos m) :: g ++ skip_ctl l) with ([ActionT (pos m)] ++ g ++ skip_ctl l).
+        change (m :: l) with ([m] ++ l). rewrite !rtoks_app, Rg, Rm.
+        rewrite Eb at 2. rewrite rtoks_app, Hr0, !plains_app, !nst_app.
+        unfold ExecUnk.plains in Hp0 |- *. rewrite Hp0.
+        assert (P1 : filter pk (rtoks (macros st) [ActionT (pos m)]) = []) by reflexivity.
+        rewrite P1. reflexivity.
+      + rewrite Et.
+        change (ActionT (pos m) :: g ++ skip_ctl l) with ([ActionT (pos m)] ++ g ++ skip_ctl l).
+        change (m :: l) with ([m] ++ l). rewrite !rtoks_app, Rg, Rm.
+        rewrite Eb at 2. rewrite rtoks_app, Hr0, !texts_app, Htx0.
+        assert (X1 : texts (rtoks (macros st) [ActionT (pos m)]) = []) by reflexivity.
+        rewrite X1. reflexivity.
   Qed.
 
   (* ---- totality on the class (C07): the loop terminates and returns ---- *)
-  Definition wt (t : tok) : nat := match tk t with KMacro => 5%nat | _ => 1%nat end.
-  Definition mu (l : list tok) : nat := fold_right (fun t n => (wt t + n)%nat) 0%nat l.
-  Lemma mu_app a b : mu (a ++ b) = (mu a + mu b)%nat.
+  (* a macro weighs 5 plus the length of its body, any other token 1 *)
+  Definition wt (ms : list (str * macro)) (t : tok) : nat :=
+    match tk t with
+    | KMacro => match assoc (txt t) ms with
+                | Some mac => match m_repl mac with
+                              | RToks body => (5 + length body)%nat
+                              | RHandler _ => 5%nat end
+                | None => 5%nat end
+    | _ => 1%nat
+    end.
+  Definition mu (ms : list (str * macro)) (l : list tok) : nat :=
+    fold_right (fun t n => (wt ms t + n)%nat) 0%nat l.
+  Lemma mu_app ms a b : mu ms (a ++ b) = (mu ms a + mu ms b)%nat.
   Proof. induction a as [|x a IH]; simpl; [reflexivity|]. rewrite IH. lia. Qed.
-  Lemma mu_skip b : (mu (skip_ctl b) <= mu b)%nat.
+  Lemma mu_skip ms b : (mu ms (skip_ctl b) <= mu ms b)%nat.
   Proof.
     induction b as [|t b IH]; simpl; [lia|].
     destruct (buf_is_space t && negb (is_lang t)); simpl; lia.
   Qed.
-  Lemma mu_len a : (length a <= mu a)%nat.
-  Proof. induction a as [|x a IH]; simpl; [lia|]. unfold wt. destruct (tk x); lia. Qed.
+  Lemma wt_pos ms t : (1 <= wt ms t)%nat.
+  Proof.
+    unfold wt. destruct (tk t); try lia. destruct (assoc (txt t) ms) as [mac|]; [|lia].
+    destruct (m_repl mac); lia.
+  Qed.
+  Lemma wt_other ms t : tk t <> KMacro -> wt ms t = 1%nat.
+  Proof. intros H. unfold wt. destruct (tk t); try reflexivity. contradiction. Qed.
 
   Theorem exec_args_total : forall fuel toks rout st,
-    bcl (macros st) toks -> (mu toks < fuel)%nat ->
+    bcl (macros st) toks -> (mu (macros st) toks < fuel)%nat ->
     exists r, exec T rd fuel (TSeq toks None rout) st = Ok r.
   Proof.
     induction fuel as [|k IH]; intros toks rout st Hc Hf; [lia|].
-    cbn [exec step]. inversion Hc as [E0|t b Ht Hb E0|m o a c l Hm Ho Hcl Hbal Ha Hl E0]; subst.
+    cbn [exec step]. inversion Hc as [E0|t b Ht Hb E0|m o a c l Hm Ho Hcl Hbal Ha Hl E0|m body l Hm Hl E0]; subst.
     - cbn [step_seq]. destruct (rpal_total isp (rev rout)) as [o E]. rewrite E. cbn [rbind].
       eexists. reflexivity.
-    - cbn [mu fold_right] in Hf. fold (mu b) in Hf.
-      inversion Ht as [? He|? Hk Hd Hm|? Hk Hi|? Hk Htx|? Hk Hbr|? v Hk Hi Hv]; subst.
-      + rewrite (step_seq_etok T rd Htab) by exact He. apply IH; [exact Hb|].
-        unfold wt in Hf. destruct (tk t); lia.
+    - cbn [mu fold_right] in Hf. fold (mu (macros st) b) in Hf.
+      pose proof (wt_pos (macros st) t) as Hw.
+      inversion Ht as [? He|? Hk Hd Hm|? Hk Hi|? Hk Htx|? Hk Hbr|? v Hk Hi Hv|? Hpin Hg]; subst.
+      + rewrite (step_seq_etok T rd Htab) by exact He. apply IH; [exact Hb | lia].
       + destruct (step_macro T rd (exec T rd k) k st t b None rout Hk Hd Hm)
           as (st1 & Es & _ & Em1).
         rewrite Es. destruct (skip_space_bcl _ _ Hb) as (pre & _ & _ & _ & Hrest).
         apply IH.
         * rewrite Em1. constructor; [apply u_action; [left|]; reflexivity | exact Hrest].
-        * cbn [mu fold_right]. fold (mu (skip_ctl b)). pose proof (mu_skip b).
-          unfold wt in *. rewrite Hk in Hf. cbn [tk ActionT mk]. lia.
-      + rewrite (step_comment T rd) by assumption. apply IH; [exact Hb|].
-        unfold wt in Hf. rewrite Hk in Hf. lia.
-      + rewrite (step_action T rd Htab) by assumption. apply IH; [exact Hb|].
-        unfold wt in Hf. destruct Hk as [Hk|Hk]; rewrite Hk in Hf; lia.
-      + rewrite (step_brace T rd) by assumption. apply IH; [exact Hb|].
-        unfold wt in Hf. rewrite Hk in Hf. lia.
-      + rewrite (step_special T rd _ _ _ _ _ _ _ v Hk Hi Hv). apply IH; [exact Hb|].
-        unfold wt in Hf. rewrite Hk in Hf. lia.
+        * rewrite Em1. cbn [mu fold_right]. fold (mu (macros st) (skip_ctl b)).
+          pose proof (mu_skip (macros st) b).
+          assert (wt (macros st) t = 5%nat) as W by (unfold wt; rewrite Hk, Hm; reflexivity).
+          assert (wt (macros st) (ActionT (pos t)) = 1%nat) as W1 by reflexivity.
+          lia.
+      + rewrite (step_comment T rd) by assumption. apply IH; [exact Hb | lia].
+      + rewrite (step_action T rd Htab) by assumption. apply IH; [exact Hb | lia].
+      + rewrite (step_brace T rd) by assumption. apply IH; [exact Hb | lia].
+      + rewrite (step_special T rd _ _ _ _ _ _ _ v Hk Hi Hv). apply IH; [exact Hb | lia].
+      + rewrite (step_seq_gtok T rd Htab) by exact Hg. apply IH; [exact Hb | lia].
     - destruct (step_pass (exec T rd k) k st m o a c l None rout Hm Ho Hcl Hbal)
         as (a' & x & y & Ea' & Hx & Hy & Es).
       rewrite Es.
@@ -499,30 +645,48 @@ Section ExecArgs.
         constructor; [apply u_action; [left|]; reflexivity|].
         apply bcl_app; [exact Ha'|].
         constructor; [apply u_action; [left|]; reflexivity | exact Hl].
-      + destruct Hm as (Hk & _). 
+      + destruct Hm as (Hk & _ & mac & a1 & Hma & _ & Hrepl & _).
         change (m :: o :: a ++ c :: l) with ([m; o] ++ a ++ [c] ++ l) in Hf.
         change (ActionT (pos m) :: ActionT (pos x) :: a' ++ ActionT (pos y) :: l)
           with ([ActionT (pos m); ActionT (pos x)] ++ a' ++ [ActionT (pos y)] ++ l).
-        rewrite !mu_app in *. 
-        assert (M1 : mu [m; o] = (5 + wt o)%nat) by (cbn; unfold wt at 1; rewrite Hk; lia).
-        assert (M2 : mu [ActionT (pos m); ActionT (pos x)] = 2%nat) by reflexivity.
-        assert (M3 : mu [ActionT (pos y)] = 1%nat) by reflexivity.
-        assert (M4 : (mu a' <= mu a + 1)%nat).
+        rewrite !mu_app in *.
+        assert (M1 : (6 <= mu (macros st) [m; o])%nat).
+        { cbn. unfold wt at 1. rewrite Hk, Hma, Hrepl. pose proof (wt_pos (macros st) o).
+          cbn [length]. lia. }
+        assert (M2 : mu (macros st) [ActionT (pos m); ActionT (pos x)] = 2%nat) by reflexivity.
+        assert (M3 : mu (macros st) [ActionT (pos y)] = 1%nat) by reflexivity.
+        assert (M4 : (mu (macros st) a' <= mu (macros st) a + 1)%nat).
         { rewrite Ea'. destruct a; [cbn; lia | lia]. }
-        assert (M5 : (1 <= mu [c])%nat) by (cbn; unfold wt; destruct (tk c); lia).
-        assert (M6 : (1 <= wt o)%nat) by (unfold wt; destruct (tk o); lia).
+        assert (M5 : (1 <= mu (macros st) [c])%nat)
+          by (cbn; pose proof (wt_pos (macros st) c); lia).
         lia.
-  Qed.
-
-  (* sufficient fuel in terms of the length of the list *)
-  Corollary exec_args_total_len toks rout st :
-    bcl (macros st) toks ->
-    exists r, exec T rd (S (5 * length toks)) (TSeq toks None rout) st = Ok r.
-  Proof.
-    intros Hc. apply exec_args_total; [exact Hc|].
-    assert (H : (mu toks <= 5 * length toks)%nat).
-    { clear. induction toks as [|t l IH]; simpl; [lia|]. unfold wt. destruct (tk t); lia. }
-    lia.
+    - rewrite (step_const (exec T rd k) k st m body l None rout Hm).
+      destruct (skip_space_bcl _ _ Hl) as (pre & _ & _ & _ & Hrest).
+      destruct Hm as (Hk & Hd & mac & Hma & Hargs & Hrepl & Hext & Hbody).
+      set (g := map (fun b => set_pos_fix b (pos m)) body).
+      assert (Hg : Forall (fun t => pfix t = true /\ gtok T t) g).
+      { unfold g. apply Forall_forall. intros t Ht. apply in_map_iff in Ht.
+        destruct Ht as (b0 & Eb0 & Hin). subst t. rewrite Forall_forall in Hbody.
+        split; [reflexivity | apply gtok_pinned; apply Hbody; exact Hin]. }
+      apply IH.
+      + constructor; [apply u_action; [left|]; reflexivity|]. apply bcl_app; [|exact Hrest].
+        clear - Hg. induction Hg as [|t g' [Hp Ht] Hg' IHg]; [constructor|].
+        apply b_one; [apply u_gen; assumption | exact IHg].
+      + cbn [mu fold_right] in Hf |- *. fold (mu (macros st) l) in Hf.
+        fold (mu (macros st) (g ++ skip_ctl l)). rewrite mu_app.
+        pose proof (mu_skip (macros st) l).
+        assert (W : wt (macros st) m = (5 + length body)%nat)
+          by (unfold wt; rewrite Hk, Hma, Hrepl; reflexivity).
+        assert (Mg : mu (macros st) g = length body).
+        { unfold g. clear - Hg. revert Hg. unfold g. clear g.
+          induction body as [|b0 body IHb]; intros Hg; [reflexivity|].
+          cbn [map] in Hg. inversion Hg as [|? ? [_ [_ Hk0]] Hg']; subst.
+          cbn [tk txt pos pfix mk set_pos_fix] in Hk0. cbn [map mu fold_right length].
+          fold (mu (macros st) (map (fun b => set_pos_fix b (pos m)) body)).
+          rewrite (IHb Hg'). rewrite wt_other; [reflexivity|].
+          cbn [tk set_pos_fix]. destruct (tk b0); try contradiction; discriminate. }
+        assert (W1 : wt (macros st) (ActionT (pos m)) = 1%nat) by reflexivity.
+        lia.
   Qed.
 
   (* the words stay -- also those inside arguments --, the markup vanishes,
@@ -532,7 +696,7 @@ Section ExecArgs.
     isp c_nl = true ->
     bcl (macros st) toks ->
     exec T rd fuel (TSeq toks None []) st = Ok (st', ASeq out []) ->
-    nst out = nst (plains (rtoks toks)) /\
+    nst out = nst (plains (rtoks (macros st) toks)) /\
     unknowns st' = fold_left add_unknown (unames (macros st) toks) (unknowns st) /\
     macros st' = macros st.
   Proof.
@@ -540,22 +704,26 @@ Section ExecArgs.
     destruct (exec_args fuel toks [] st _ Hc H) as (st2 & ts & o & Er & Ep & Eu & Em & En & Et & Ef).
     inversion Er; subst. cbn [rev app] in Ep.
     split; [|split; assumption].
+    (* every token of ts: a text-like kind, or no text at all *)
+    assert (Hk : Forall (fun t => (pk t = true /\ is_action t = false /\ is_lang t = false)
+                                  \/ (pk t = false /\ txt t = [])) ts).
+    { eapply Forall_impl; [|exact Ef]. intros a Ha.
+      destruct Ha as [[_ A]|[(A & B)|[[A _]|[_ [_ A]]]]].
+      - left. unfold ExecUnk.pk, is_action, is_lang. destruct (tk a); try contradiction; auto.
+      - right. split; assumption.
+      - left. unfold ExecUnk.pk, is_action, is_lang. rewrite A. auto.
+      - left. cbn [tk txt pos pfix mk] in A. unfold ExecUnk.pk, is_action, is_lang.
+        destruct (tk a); try contradiction; auto. }
     assert (HE0 : Forall (RpalProofs.E0) ts).
-    { eapply Forall_impl; [|exact Ef]. intros a Ha. unfold RpalProofs.E0. intros HX.
-      destruct Ha as [[_ A]|[(A & B)|[A _]]]; [|exact B|].
-      - exfalso. unfold is_action, is_lang in HX.
-        destruct (tk a); try contradiction; destruct HX; discriminate.
-      - exfalso. unfold is_action, is_lang in HX. rewrite A in HX. destruct HX; discriminate. }
+    { eapply Forall_impl; [|exact Hk]. intros a Ha. unfold RpalProofs.E0. intros HX.
+      destruct Ha as [(A & B & C)|(A & B)]; [destruct HX; congruence | exact B]. }
     pose proof (rpal_conserves isp Hnl ts o HE0 Ep) as Hcons.
     unfold ExecUnk.nst at 1. rewrite Hcons. rewrite <- En.
-    unfold ExecUnk.nst, RpalProofs.nst, ExecUnk.plains. clear - Ef.
-    induction Ef as [|t l Ht Hl IH]; [reflexivity|].
-    cbn [flat_map filter]. destruct Ht as [[_ A]|[(A & B)|[A _]]].
-    - assert (P : pk t = true) by (unfold ExecUnk.pk; destruct (tk t); try contradiction; reflexivity).
-      rewrite P. cbn [flat_map]. rewrite IH. reflexivity.
-    - rewrite A, B. cbn. exact IH.
-    - assert (P : pk t = true) by (unfold ExecUnk.pk; rewrite A; reflexivity).
-      rewrite P. cbn [flat_map]. rewrite IH. reflexivity.
+    unfold ExecUnk.nst, RpalProofs.nst, ExecUnk.plains. clear - Hk.
+    induction Hk as [|t l Ht Hl IH]; [reflexivity|].
+    cbn [flat_map filter]. destruct Ht as [(A & _)|(A & B)]; rewrite A.
+    - cbn [flat_map]. rewrite IH. reflexivity.
+    - rewrite B. cbn. exact IH.
   Qed.
 
   (* no tabulated replacement text holds a line break *)
@@ -573,15 +741,16 @@ Section ExecArgs.
     isp c_nl = true ->
     bcl (macros st) toks ->
     exec T rd fuel (TSeq toks None []) st = Ok (st', ASeq out []) ->
-    filter (solid isp) out = filter (solid isp) (texts (rtoks toks)).
+    filter (solid isp) out = filter (solid isp) (texts (rtoks (macros st) toks)).
   Proof.
     intros Hnl Hc H.
     destruct (exec_args fuel toks [] st _ Hc H) as (st2 & ts & o & Er & Ep & _ & _ & _ & Et & Ef).
     inversion Er; subst. cbn [rev app] in Ep. rewrite <- Et.
-    assert (Hcls : forall t, etok T t \/ (pk t = false /\ txt t = []) \/ sp_tok t ->
+    assert (Hcls : forall t, etok T t \/ (pk t = false /\ txt t = []) \/ sp_tok t \/ (pfix t = true /\ gtok T t) ->
                    G isp t /\ (tx t = false -> solid isp t = false)).
-    { intros t [[Hp Hk]|[(A & B)|[A (key & Hv)]]].
-      - unfold tx, G, RpalProofs.E0, is_action, is_lang, solid.
+    { assert (Hg0 : forall t, gtok T t -> G isp t /\ (tx t = false -> solid isp t = false)).
+      { intros t [Hp Hk]. cbn [tk txt pos pfix mk] in Hk.
+        unfold tx, G, RpalProofs.E0, is_action, is_lang, solid.
         destruct (tk t) eqn:Ek; try contradiction.
         + destruct Hk as (c & Etx & Hsc & _). rewrite Etx.
           assert (Hc' : isp c = false) by (rewrite <- Hsp; exact Hsc).
@@ -601,7 +770,9 @@ Section ExecArgs.
           { unfold blank_str. rewrite forallb_forall in *. intros a Ha. rewrite <- Hsp.
             apply Hall, Ha. }
           rewrite Hb. rewrite Bool.andb_false_r.
-          split; [split; [intros _; reflexivity | intros [X|X]; discriminate] | reflexivity].
+          split; [split; [intros _; reflexivity | intros [X|X]; discriminate] | reflexivity]. }
+      intros t [He|[(A & B)|[[A (key & Hv)]|[_ Hg]]]];
+        [apply Hg0, etok_gtok; exact He | | | apply Hg0; exact Hg].
       - split; [split; [rewrite B; discriminate | intros _; exact B]|].
         intros _. apply (solid_nil isp t B).
       - assert (Hn : has_nl (txt t) = false).
